@@ -1,7 +1,7 @@
 (* Run.v — entry points specialised to the executable instance, for
    extraction and for vm_compute cross-checks. *)
 From Coq Require Import ZArith List Bool Arith Lia.
-From RV Require Import Val Syntax Rho Offline Online Sat IA ExtZ.
+From RV Require Import Val Syntax Rho Offline Online Sat IA Pastify ExtZ.
 Import ListNotations.
 
 Definition zformula := @formula ExtZVal.
@@ -13,6 +13,13 @@ Definition pk_std : zformula -> zformula -> pkind := fun _ _ => PStd.
 Definition io_of (l : list bool) : nat -> bool := fun x => nth x l false.
 Definition pk_ia_impl (sem : semantics) (l : list bool) : zformula -> zformula -> pkind := pk_impl (io_of l) sem.
 Definition pk_ia_spec (sem : semantics) (l : list bool) : zformula -> zformula -> pkind := pk_spec (io_of l) sem.
+
+Definition dk_of (b : bool) : delay_kind := if b then DelayOnce else DelayPrev.
+Definition run_pastify (stl : bool) (p : zformula) : zformula := pastify (dk_of stl) p (hor p).
+Definition run_past_guard (p : zformula) : bool := wf_bounds p && bounded_future p && future_above_past p.
+(* what C03 promises for the i-th update of the pastified monitor *)
+Definition run_past_spec (p : zformula) (w : ztrace) (n : nat) : list (option extz) :=
+  map (fun i => if hor p <=? i then Some (rho ExtZArith pk_std p w (S i) (i - hor p)) else None) (seq 0 n).
 
 Definition run_hor (p : zformula) : nat := hor p.
 Definition run_bounded_future (p : zformula) : bool := bounded_future p.
